@@ -535,6 +535,27 @@ def hex_assembly_refuses_other_angles_and_changes_nothing(
     assert (s[3].displacementX, s[3].displacementY) == (dx, dy) and s[3].orientation[2] == o2
 
 
+CartesianBlock = repo("armi.reactor.blocks:CartesianBlock")
+CartesianAssembly = repo("armi.reactor.assemblies:CartesianAssembly")
+
+
+@lemma(gen={"rad": (-20.0, 20.0)})
+def a_block_that_is_not_hexagonal_does_not_pretend_to_rotate(rad: float, dx: float, dy: float):
+    """Block.rotate (inherited by CartesianBlock) and Assembly.rotate over such blocks: NotImplementedError, for every
+    angle, and nothing is changed - sixty-degree rotation is defined for hexagonal blocks only"""
+    p = params(0.0, 0.0, 0.0, dx, dy, None, None)
+    b = new(CartesianBlock, spatialGrid=None, _children=[], p=p)
+    a = new(CartesianAssembly, _children=[b], p=new(PMap, assemNum=1), name="A", parent=None, spatialGrid=None, spatialLocator=None)
+    for target in (b, a):
+        try:
+            target.rotate(rad)
+            ok = True
+        except NotImplementedError:
+            ok = False
+        assert not ok
+    assert (p.displacementX, p.displacementY) == (dx, dy) and p.orientation[2] == 0.0
+
+
 class GridlessBlock(HexBlock):
     """probe: a HexBlock whose autoCreateSpatialGrids (needs components, pitches, multiplicities) is replaced by a
     recorder with a prescribed outcome: 0 = builds a grid, 1 = ValueError, 2 = NotImplementedError, 3 = KeyError"""
@@ -610,3 +631,44 @@ def corner_and_edge_parameter_names_are_the_real_ones():
         real = HexBlock.paramCollectionType.pDefs
         assert sorted(real.atLocation(ParamLocation.CORNERS).names) == sorted(CORNER_NAMES)
         assert sorted(real.atLocation(ParamLocation.EDGES).names) == sorted(EDGE_NAMES)
+
+
+# ----------------------------------------------------------------------------- the engine models used above, against Python
+@lemma(gen={"k": (-13, 13)})
+def engine_models_of_pi_multiples_agree_with_python(k: int):
+    """Trusted-base check: the same assertions run on the engine's models (exact sin / cos at multiples of pi / 6,
+    quotient / remainder of multiples of pi) and natively on math (floating point: closeness; a remainder may land
+    next to the divisor instead of next to 0).  k = -13..13 enumerated."""
+    k = choose(k, -13, 13)
+    h = math.sqrt(3) / 2
+    rad = k * math.pi / 3
+    assert eq(math.cos(rad), [1.0, 0.5, -0.5, -1.0, -0.5, 0.5][k % 6]) and eq(math.sin(rad), [0.0, h, h, 0.0, -h, -h][k % 6])
+    assert eq(math.cos(k * math.pi / 2), [1.0, 0.0, -1.0, 0.0][k % 4]) and eq(math.sin(k * math.pi / 2), [0.0, 1.0, 0.0, -1.0][k % 4])
+    assert eq(math.cos(k * math.pi / 6), [1.0, h, 0.5, 0.0, -0.5, -h, -1.0, -h, -0.5, 0.0, 0.5, h][k % 12])
+    assert eq(math.sin(math.radians(30 * k)), [0.0, 0.5, h, 1.0, h, 0.5, 0.0, -0.5, -h, -1.0, -h, -0.5][k % 12])
+    assert eq(rad / (math.pi / 3), k) and eq(rad / math.radians(60), k)
+    m = rad % (2 * math.pi)
+    assert eq(m, (k % 6) * math.pi / 3) or (NATIVE and k % 6 == 0 and eq(m, 2 * math.pi))
+    fl = rad // (2 * math.pi)
+    assert eq(fl, k // 6) or (NATIVE and k % 6 == 0 and eq(fl, k // 6 - 1))
+    m3 = (-rad) % (-math.pi / 2)
+    assert -math.pi / 2 < m3 and m3 <= 0 and eq(m3, -(((2 * k) % 3) * math.pi / 6)) or (NATIVE and (2 * k) % 3 == 0)
+    assert eq(np.rint(k + 0.5), 2 * ((k + 1) // 2)) and eq(np.rint(k), k)
+
+
+@lemma(gen={"rs": (-7, 7), "x": (-50.0, 50.0)})
+def engine_models_of_array_rolls_agree_with_python(rs: int, x: float, a0: float, a1: float, a2: float, a3: float, a4: float, a5: float):
+    """second half of the trusted-base check: np.concatenate, 1-d array slices with a symbolic bound, np.rint"""
+    assume(-7 <= rs and rs <= 7)
+    items = [a0, a1, a2, a3, a4, a5]
+    v = np.array(items)
+    rolled = np.concatenate((v[rs:], v[:rs]))
+    assert isinstance(rolled, np.ndarray) and len(rolled) == 6
+    asList = items[rs:] + items[:rs]
+    for q in range(6):
+        assert eq(rolled[q], asList[q])
+    assert len(v[rs:]) == len(items[rs:]) and len(v[:rs]) == len(items[:rs])
+    assert eq(list(np.concatenate(([a0, a1], v[:2], (a5,)))), [a0, a1, a0, a1, a5])
+    # rint
+    assert eq(np.rint(x), round(x))
+    assert eq(list(np.rint(np.array([x, 2.5, -0.5]))), [round(x), 2.0, 0.0])
